@@ -303,6 +303,12 @@ impl<Ctrl, Strm, Ctxt> Camera<Ctrl, Strm, Ctxt> {
             return Err(StreamError::InStreaming.into());
         }
 
+        // Make sure the `GenApi` context is loaded before changing the device state, otherwise
+        // streaming would stay enabled on the device with no way to disable it again.
+        if self.ctxt.is_none() {
+            return Err(CameleonError::GenApiContextMissing);
+        }
+
         // Enable streaimng.
         self.ctrl.enable_streaming()?;
         let mut ctxt = self.params_ctxt()?;
